@@ -34,6 +34,7 @@ func (Area) Gen(r *rand.Rand, tier string, emit func(string)) {
 	}
 	genPipe(r, tier, emit)
 	genNf(r, tier, emit)
+	genHist(r, tier, emit)
 	n := 3000
 	if tier == "thorough" {
 		n = 30000
